@@ -7,9 +7,9 @@ import common
 from common import Case
 
 TITLE = 'Admission seats one conforming client per seat and turns the others away'
-LEAN_TARGETS = ['BridgeVerif.Props.C20', 'BridgeVerif.Translated.Messages', 'BridgeVerif.Translated.ThreadsSeatB', 'BridgeVerif.Translated.ThreadsSeatC', 'BridgeVerif.Translated.ThreadsMainC']
-AUDIT_PROPS = ['C20', 'Translated.Messages', 'Translated.ThreadsSeatB', 'Translated.ThreadsSeatC', 'Translated.ThreadsMainC']
-REQUIRED = ['Translated.ThreadsMainC.main_accept_loop_translated', 
+LEAN_TARGETS = ['BridgeVerif.Props.C20', 'BridgeVerif.Translated.Messages', 'BridgeVerif.Translated.ThreadsSeatB', 'BridgeVerif.Translated.ThreadsSeatC', 'BridgeVerif.Translated.ThreadsMainC', 'BridgeVerif.Lemmas.RegexConnectB', 'BridgeVerif.Translated.ConnectInfo', 'BridgeVerif.Translated.ThreadsSeatE']
+AUDIT_PROPS = ['C20', 'Translated.Messages', 'Translated.ThreadsSeatB', 'Translated.ThreadsSeatC', 'Translated.ThreadsMainC', 'Lemmas.RegexConnect', 'Lemmas.RegexConnectB', 'Translated.ConnectInfo', 'Translated.ThreadsSeatE']
+REQUIRED = ['Lemmas.RegexConnect.match_connect', 'Lemmas.RegexConnectB.agreeLit_all', 'Translated.ConnectInfo.parse_connection_info_translated', 'Translated.ThreadsMainC.main_accept_loop_translated', 
             'Translated.ThreadsSeatC.seat_run_refused_translated', 
             'Translated.ThreadsSeatB.seat_connect_translated', 'Translated.ThreadsSeatB.seat_connect_not_ready_translated', 'Translated.ThreadsSeatB.seat_connect_matches_connectR', 
             'Translated.Messages.connection_line_read',
